@@ -781,15 +781,26 @@ def read_buffer_bounded_by(f, read_bb, bound_locals):
     return False, "the buffer is not bounded by what is left to read"
 
 
+def size_key_of(facts, adt):
+    """key suffix of the one `usize` quantity a length-limited reader keeps (directly, or inside a private newtype): ('.size',) /
+    ('.remaining', '.0'); None when there is not exactly one"""
+    ps = find_slot_paths(facts, adt, r"^usize$")
+    return tuple("." + x for x in ps[0]) if len(ps) == 1 else None
+
+
 def helper_stop(facts, file):
     """inlining boundary of a model that reads one file: functions of the crate in other files stay calls -- except free functions (no
-    `impl`, no trait) of the crate, which are plumbing that several files may share (`util::discard(reader, scratch, limit)`)"""
+    `impl`, no trait) of the crate and provided methods of its traits, which are plumbing that several files may share
+    (`util::discard(reader, scratch, limit)`, `trait DiscardRest { fn discard_rest(&mut self) {..} }`)"""
     def stop(d):
         g = facts.fns[d]
         if not g.rec.get("local") or g.file == file:
             return False
         root = facts.fns.get(re.sub(r"(::\{closure#\d+\})+$", "", d))
         if root is not None and root.rec.get("def_kind") == "Fn" and root.rec.get("impl_self_adt") is None and root.rec.get("impl_trait") is None and "test" not in root.id.split("::")[0]:
+            return False
+        # ... and so are the provided methods of a trait of the crate (a default body shared by its implementors: it belongs to no type)
+        if root is not None and root.rec.get("def_kind") == "AssocFn" and "impl_self" not in root.rec:
             return False
         return True
     return stop
@@ -1011,8 +1022,22 @@ def notify_slot_dead(ctx):
             r = x["rhs"]
             o = f.origin(r["ops"][r["fields"].index(fld)])
             if not (o[0] == "agg" and o[4] == ns["empty"] and not o[2]):
-                # a constructor that takes the value as a parameter: then its callers must pass the empty value
-                ok = ok and False
+                # not a literal empty value (`..Default::default()`, a helper's result): decided by evaluation -- every value of the owner
+                # type the constructing function returns holds the empty value in the slot
+                import absint as _ab, inline as _inl, symex as _sx
+                import queue_rules as _Q
+                fi = _inl.inlined(facts, f.id, stop=helper_stop(facts, f.file), extern_ok=_Q.std_small)
+                found, bad_v = 0, 0
+                for p_ in _ab.explore(fi, 0, None, max_paths=2000):
+                    if p_.end[0] != "return":
+                        continue
+                    for x_ in _ab.walk_terms(_ab.deep(p_.state, p_.ret())):
+                        if x_ and x_[0] == "agg" and x_[1] == owner and isinstance(x_[3], dict) and fld in x_[3]:
+                            found += 1
+                            if x_[3][fld] != ns["dead"]:
+                                bad_v += 1
+                if not found or bad_v:
+                    ok = False
         elif kind in ("assign", "calldest"):
             setters.add(f.id)
         elif kind == "mutref":
